@@ -9,10 +9,41 @@ _CACHE = {}
 
 
 def alloc_func(ctx):
-    cands = [g for g in sim_reach(ctx) if any(e.kind == "mut" and e.attr == "allocated_worker_list" and e.op == "append" for e in ctx.eff.of(g))]
-    if len(cands) != 1:
-        raise AnalysisError(f"anchor: expected exactly one simulation-reachable function that appends to allocated_worker_list, found {[g.qualname for g in cands]}")
-    return cands[0]
+    """The allocation phase: the function the step loop calls whose own code -- or a private helper of its class that it is split
+    into -- appends to a task's allocated_worker_list."""
+    key = ("alloc_func", id(ctx.repo))
+    if key in _CACHE:
+        return _CACHE[key]
+
+    def appends(g):
+        return any(e.kind == "mut" and e.attr == "allocated_worker_list" and e.op == "append" for e in ctx.eff.of(g))
+    holders = [g for g in sim_reach(ctx) if appends(g)]
+    if not holders:
+        raise AnalysisError("anchor: no simulation-reachable function appends to allocated_worker_list")
+    # climb from each holder to the outermost same-class private function that reaches it only through private helpers
+    def callers_of(g):
+        out = []
+        for h in sim_reach(ctx):
+            for cs in ctx.eff.calls_of(h):
+                if cs.resolved and any(c.node is g.node for c in cs.callees):
+                    out.append(h)
+        return out
+    tops = []
+    for g in holders:
+        cur, seen = g, set()
+        while True:
+            seen.add(id(cur.node))
+            ups = [h for h in callers_of(cur) if h.cls == cur.cls and h.name.startswith("_") and not h.name.endswith("__") and id(h.node) not in seen
+                   and h.name not in ("simulate",)]
+            if len(ups) != 1:
+                break
+            cur = ups[0]
+        if not any(cur.node is t.node for t in tops):
+            tops.append(cur)
+    if len(tops) != 1:
+        raise AnalysisError(f"anchor: expected exactly one allocation phase (function appending to allocated_worker_list), found {[g.qualname for g in tops]}")
+    _CACHE[key] = tops[0]
+    return tops[0]
 
 
 def helper_with_effects(ctx, f, callee):
